@@ -83,8 +83,17 @@ partial def objOfJson (j : Json) : Except String RefName.Obj := do
     reference   `{"var":"ref","members":["Finished"]|null,"obj":obj|null}` (`obj` null = the variable is not in the context),
     by name     `{"var":null,"name":"some_flow","type":"flow"|"action"|…,"members":["Start"],"known":bool}` (`known` = the name
                 is a key of `state.flow_configs`)
-    -> `{"ok":name}` / `{"err":exception class}` computed by `RefName.nameOfSpec` (case 1 = `RefName.nameOf`) -/
+    -> `{"ok":name}` / `{"err":exception class}` computed by `RefName.nameOfSpec` (case 1 = `RefName.nameOf`), plus
+       `"dispatch": {"ok":name} / {"err":class}` computed by `RefName.dispatchNameOfSpec` (the name of `get_event_from_element`) -/
 def refnameOne (j : Json) : Except String Json := do
+  -- `change_args`: the member arguments contain `arguments` and were evaluated (only `Change` looks at them)
+  let changeArgs := match j.getObjVal? "change_args" with | .ok (.bool b) => b | _ => false
+  let res (r : Except RefName.Err String) : Json := match r with
+    | .ok nm => Json.mkObj [("ok", .str nm)]
+    | .error e => Json.mkObj [("err", .str e.cls)]
+  -- the indexer's name (`get_event_name_from_element`) and, under "dispatch", the dispatcher's (`get_event_from_element`)
+  let answer (flows : List String) (ctx : RefName.Ctx) (sp : RefName.ElemSpec) : Json :=
+    (res (RefName.nameOfSpec flows ctx sp)).setObjVal! "dispatch" (res (RefName.dispatchNameOfSpec changeArgs flows ctx sp))
   let members ← match j.getObjVal? "members" with
     | .ok (.arr ms) => do pure (some (← ms.toList.mapM fun m => m.getStr?))
     | _ => pure none
@@ -93,9 +102,7 @@ def refnameOne (j : Json) : Except String Json := do
     let ctx ← match j.getObjVal? "obj" with
       | .ok .null | .error _ => pure []
       | .ok o => do pure [(v, ← objOfJson o)]
-    match RefName.nameOfSpec [] ctx { varName := some v, members := members } with
-    | .ok nm => pure (Json.mkObj [("ok", .str nm)])
-    | .error e => pure (Json.mkObj [("err", .str e.cls)])
+    pure (answer [] ctx { varName := some v, members := members })
   | _ =>
     let name ← match j.getObjVal? "name" with
       | .ok (.str n) => pure (some n)
@@ -107,9 +114,7 @@ def refnameOne (j : Json) : Except String Json := do
       | _ => RefName.SpecType.other
     let known := match j.getObjVal? "known" with | .ok (.bool b) => b | _ => false
     let flows := match name with | some n => if known then [n] else [] | none => []
-    match RefName.nameOfSpec flows [] { varName := none, name := name, specType := ty, members := members } with
-    | .ok nm => pure (Json.mkObj [("ok", .str nm)])
-    | .error e => pure (Json.mkObj [("err", .str e.cls)])
+    pure (answer flows [] { varName := none, name := name, specType := ty, members := members })
 
 /-- `{"m":"C09.replay","segments":[[op,…],[op,…],…]}`: the operations recorded between two observation
     points (one segment per external event); answers with the model state after every segment. -/
